@@ -5,6 +5,7 @@ CONSTANTS
   CutIn = 0
   FirstMayBeEmpty = FALSE
   Limit = 6
+  MinRead = 0
   MaxRead = 7
   Variant = "env_restart"
 INVARIANT TypeOK
